@@ -93,12 +93,14 @@ func (f *connFeeder) close() {
 }
 
 func (f *connFeeder) do(b []byte) (n int, err error) {
+	verifYield(f, "do:enter", b)
 	// send the request to the worker
 	select {
 	case f.input <- b:
 	case <-f.done:
 		return 0, io.EOF
 	}
+	verifYield(f, "do:sent", b)
 	// get the result from the worker
 	select {
 	case r := <-f.result:
@@ -115,14 +117,18 @@ func (f *connFeeder) run() {
 		select {
 		case b = <-f.input:
 		case <-f.done:
+			verifYield(f, "run:exit", nil)
 			return
 		}
+		verifYield(f, "run:recv", b)
 		// invoke the underlying method
 		n, err := f.source(b)
+		verifYield(f, "run:result", b)
 		// send the result back to the requester
 		select {
 		case f.result <- feedResult{n: n, err: err}:
 		case <-f.done:
+			verifYield(f, "run:exit", nil)
 			return
 		}
 	}
